@@ -13,6 +13,11 @@ binding: real UDSScanner.entry_point (real ECU, real DBHandler on a temp sqlite 
          constructor / in main() / never, --ecu-reset, --ping, --properties with an OEM ECU class
          that reads a DID); the exchanges setup()/teardown() make themselves are exchanges of the
          run like any other, and "implicit logging on/off" is what the COMMAND asked for.
+         Family `entry-points`: main() calls the client's convenience entry points (transmit_data, set_session with
+         its database fall-back, leave_session, check_and_set_session, ping, read_dtc, ..., every typed one-shot
+         helper found by reflection), each with ONE request config (no config / empty / ANALYZE / another tag / both)
+         for SEVERAL exchanges, interleaved with plain calls tagged the other way: every exchange that IS the
+         operation must be marked as the caller of the entry point asked (B2/log-mode), all rows present, in order.
 """
 
 from __future__ import annotations
@@ -186,6 +191,174 @@ def scanner_level_files(thorough: bool, rd: dict[str, Any], ds: dict[str, Any],
     return files
 
 
+# --------------------------------------------------------------------------- entry-point family
+
+EP_SCAN = {"ctor": None, "ping": False, "reset": None, "props": "off"}
+# request configs a caller may hand to an entry point: none at all, one without tags, an empty tag list, the ANALYZE
+# tag, another tag, both (either order)
+TAG_VARIANTS: list[dict[str, Any]] = [
+    {"tags": None}, {"tags": ["ANALYZE"]}, {"tags": ["OTHER"]}, {"tags": ["OTHER", "ANALYZE"]},
+    {"tags": None, "emptycfg": True}, {"tags": []}, {"tags": ["ANALYZE", "x"]},
+]
+
+
+def ep_step(name: str, args: dict[str, Any] | None = None, variant: dict[str, Any] | None = None,
+            faults: dict[str, Any] | None = None, retry: int | None = None) -> dict[str, Any]:
+    from harness import c11_kinds as K
+
+    st: dict[str, Any] = {"op": "ep", "name": name, "args": {k: K._enc(v) for k, v in (args or {}).items()},
+                          "tags": None, "retry": retry, "faults": faults or {}}
+    st.update(variant or {})
+    return st
+
+
+def helper_calls() -> tuple[list[tuple[str, dict[str, Any]]], list[str]]:
+    """Every typed one-shot helper of the UDS client that takes a request config (reflection), with simple valid
+    arguments chosen by parameter name; helpers with a required parameter nothing is known about are skipped
+    (and named in the evidence), never guessed."""
+    import inspect
+
+    from gallia.services.uds.core.client import UDSClient
+    from harness import c11_kinds as K
+
+    calls: list[tuple[str, dict[str, Any]]] = []
+    skipped: list[str] = []
+    for name, fn in inspect.getmembers(UDSClient, inspect.iscoroutinefunction):
+        params = inspect.signature(fn).parameters
+        if name.startswith("_") or name in ("request", "request_unsafe") or "config" not in params:
+            continue
+        args: dict[str, Any] = {}
+        ok = True
+        for p in list(params.values())[1:]:
+            ann = str(p.annotation)
+            if p.name == "config":
+                continue
+            if p.name == "security_access_type":
+                args[p.name] = 1 if "seed" in name else 2
+            elif p.name == "pdu":
+                args[p.name] = b"\x22\x12\x34"
+            elif p.name in K.INT_BY_NAME:
+                args[p.name] = K.INT_BY_NAME[p.name][0]
+            elif p.name in K.BYTES_BY_NAME:
+                args[p.name] = K.BYTES_BY_NAME[p.name][0]
+            elif p.default is not inspect.Parameter.empty:
+                continue
+            elif "bytes" in ann and "int" not in ann:
+                args[p.name] = b"\xaa\xbb"
+            else:
+                ok = False
+        if ok:
+            calls.append((name, args))
+        else:
+            skipped.append(name)
+    return calls, skipped
+
+
+def entry_point_files(thorough: bool, rd: dict[str, Any], pos_rd: list[list[str]]) -> tuple[
+        list[list[dict[str, Any]]], list[list[dict[str, Any]]], dict[str, Any]]:
+    """(files, histories to abort at every await point, facts for the evidence)."""
+    def r(ana: bool = False) -> dict[str, Any]:
+        return req_step(rd, pos_rd, ana=ana, label="Pos")
+
+    def ana_of(v: dict[str, Any]) -> bool:
+        return bool(v.get("tags")) and "ANALYZE" in v["tags"]
+
+    def job(h: list[dict[str, Any]], **ecu: Any) -> dict[str, Any]:
+        return {"hist": h, "scan": {**EP_SCAN, "ecu": {"stateful": True, "positive_default": True, **ecu}}}
+
+    def interleaved(steps: list[dict[str, Any]]) -> list[dict[str, Any]]:
+        """plain calls between the entry-point calls, tagged the OTHER way round"""
+        h: list[dict[str, Any]] = []
+        for st in steps:
+            h.append(r(ana=not ana_of(st)))
+            h.append(st)
+        return h + [r()]
+
+    on, off = {"op": "toggle", "on": True}, {"op": "toggle", "on": False}
+    files: list[list[dict[str, Any]]] = []
+    V = TAG_VARIANTS
+    # -- transmit_data: shapes (data length, block_length, max_block_length) x every config variant
+    shapes = [(40, 10, 0xFFF), (1, 3, 0xFFF), (16, 10, 0xFFF), (30, 0x20, 8), (0, 10, 0xFFF),
+              (520 if not thorough else 1300, 4, 0xFFF)]      # the last one: the block counter wraps
+
+    def tx(shape: tuple[int, int, int], v: dict[str, Any], **kw: Any) -> dict[str, Any]:
+        n, bl, mbl = shape
+        return ep_step("transmit_data", {"data": bytes(i & 0xFF for i in range(n)), "block_length": bl,
+                                         "max_block_length": mbl}, v, **kw)
+
+    for shape in shapes[:-1]:
+        files.append([job(interleaved([tx(shape, v) for v in V]))])
+    files.append([job(interleaved([tx(shapes[-1], V[1]), tx(shapes[-1], V[0])]))])
+    # ... with one exchange of the transfer going wrong (the n-th: first block, a middle one, the exit): refused,
+    # unanswered, answered by a foreign reply, connection reset; unanswered once with a retry granted
+    faults = [("neg36", [["D", "7f3672"]]), ("timeout", [["T"]]), ("mismatch", [["D", "7f2231"]]), ("reset", [["C"]])]
+    for nth, sid in ((1, 0x36), (3, 0x36), (6, 0x37)):
+        steps = []
+        for k, (_, sc) in enumerate(faults):
+            script = [["D", bytes([0x7F, sid, 0x72]).hex()]] if sc[0][0] == "D" and sc[0][1] == "7f3672" else sc
+            steps.append(tx(shapes[0], V[(k + nth) % 4], faults={str(nth): script}))
+        ok = bytes([0x76, nth]).hex() if sid == 0x36 else "77"
+        steps.append(tx(shapes[0], V[1], faults={str(nth): [["T"], ["D", ok]]}, retry=1))
+        steps.append(tx(shapes[0], V[2], faults={str(nth): [["D", bytes([0x7F, sid, 0x78]).hex()], ["D", ok]]}))
+        files.append([job(interleaved(steps))])
+    # -- set_session: plain, refused, and the database fall-back (a session only reachable through another one,
+    #    with a transition stored for the target by an earlier scan of sessions)
+    files.append([job(interleaved([ep_step("set_session", {"level": lvl}, v)
+                                   for lvl, v in zip((3, 2, 1, 3, 0x42, 1, 2), V)]))])
+    files.append([job(interleaved([ep_step("set_session", {"level": lvl}, v)
+                                   for lvl, v in ((5, V[1]), (5, V[0]), (3, V[3]), (5, V[2]))]), refused=[5])])
+    for steps_db in ([3], [1, 3], [3, 0x42]):
+        for v in (V[1], V[0], V[3], V[2]):
+            files.append([job([r(ana=not ana_of(v)), {"op": "transitions", "dest": 0x42, "steps": steps_db},
+                               ep_step("set_session", {"level": 0x42}, v), r(),
+                               ep_step("set_session", {"level": 1}, V[0]),
+                               ep_step("set_session", {"level": 0x42, "use_db": False}, v),
+                               ep_step("set_session", {"level": 0x42}, v), r(ana=True)],
+                              gated={"66": 3})])
+    files.append([job(interleaved([ep_step("set_session", {"level": 0x42}, v) for v in V[:4]]), gated={"66": 3})])
+    # -- the ECU class's one-exchange conveniences x every config variant
+    for name in ("ping", "read_session", "read_dtc", "clear_dtc", "read_vin"):
+        files.append([job(interleaved([ep_step(name, {}, v) for v in V]))])
+    # -- every typed one-shot helper that takes a config (reflection), config variants rotating
+    helpers, skipped = helper_calls()
+    for rot in range(4 if not thorough else len(V)):
+        files.append([job(interleaved([ep_step(n, a, V[(k + rot) % (4 if not thorough else len(V))])
+                                       for k, (n, a) in enumerate(helpers)]))])
+    # -- entry points whose exchanges are auxiliary as far as the caller's config goes: rows complete and in order,
+    #    each marked by the config its request was made with
+    files.append([job(interleaved([ep_step("check_and_set_session", {"expected_session": 1}),
+                                   ep_step("check_and_set_session", {"expected_session": 3}),
+                                   ep_step("check_and_set_session", {"expected_session": 5, "retries": 1}),
+                                   ep_step("refresh_state", {}), ep_step("refresh_state", {"reset_state": True}),
+                                   ep_step("set_session", {"level": 2}, V[1]),
+                                   ep_step("check_and_set_session", {"expected_session": 2},
+                                           faults={"1": [["D", "7f2231"]]}),
+                                   ep_step("check_and_set_session", {"expected_session": 3},
+                                           faults={"1": [["T"], ["T"], ["T"], ["T"]]})]), refused=[5])])
+    for v in ((V[1], V[0]) if not thorough else V[:4]):     # (every ping waits 0.5 s of real time first)
+        files.append([job(interleaved([ep_step("set_session", {"level": 3}, v),
+                                       ep_step("leave_session", {"level": 3}, v)]))])
+    files.append([job(interleaved([ep_step("wait_for_ecu", {"timeout": 5})]), silent_pings=1)])
+    # -- implicit logging switched off / on around entry-point calls
+    files.append([job([off, tx(shapes[0], V[1]), on, tx(shapes[2], V[1]), off, ep_step("set_session", {"level": 3}, V[1]),
+                       r(ana=True), on, ep_step("read_dtc", {}, V[1]), tx(shapes[1], V[0]), off])])
+    # -- entry-point calls of concurrent tasks (their exchanges interleave on the wire)
+    for va, vb in ((V[1], V[0]), (V[0], V[1]), (V[1], V[3])):
+        files.append([job([r(), {"op": "par", "lanes": [[tx(shapes[0], va)], [r(ana=ana_of(vb))] * 3,
+                                                       [ep_step("set_session", {"level": 3}, vb),
+                                                        ep_step("read_dtc", {}, va)],
+                                                       [tx(shapes[2], vb)]]}, r(ana=True)])])
+    abort_h = [[r(), tx((16, 7, 0xFFF), V[1]), {"op": "transitions", "dest": 0x42, "steps": [3]},
+                ep_step("set_session", {"level": 0x42}, V[1]), ep_step("read_dtc", {}, V[0])]]
+    facts = {"typed_helpers_called": len(helpers), "typed_helpers_skipped": skipped,
+             "config_variants": [json.dumps(v, sort_keys=True) for v in V], "gated_session": 0x42}
+    return files, abort_h, facts
+
+
+def abort_job(h: list[dict[str, Any]]) -> dict[str, Any]:
+    return {"hist": h, "scan": {**EP_SCAN, "ecu": {"stateful": True, "positive_default": True, "gated": {"66": 3}}}}
+
+
 # --------------------------------------------------------------------------- TLC validation
 
 def validate(traces: list[dict[str, Any]], rep: Report | None = None) -> dict[int, tuple[str, int]]:
@@ -234,6 +407,12 @@ def signature(t: dict[str, Any], label: str, j: int) -> dict[str, Any]:
             sig["implicit_logging_chosen"] = {None: "in main() or never", False: "constructor: off",
                                               True: "constructor: on"}[sc.get("ctor")]
             sig["properties"] = sc.get("props")
+        if m.get("ep"):
+            # an exchange made by a convenience entry point on behalf of its caller
+            sig["entry_point"] = m["ep"]
+            sig["exchange_is"] = m["role"]
+            sig["caller_tagged_ANALYZE"] = m["tag_of_caller"]
+            sig["tag_reached_request"] = m["tag_reached_request"]
         sig["reply"] = reply_kind(t, j)
         sig["call"] = e["out"]
         sig["warned"] = m["warn"] is not None
@@ -368,7 +547,12 @@ def run(tier: str, seed: int) -> Report:
                 "implicit toggles / ANALYZE tags / aborts; concurrent lanes; TLC-simulated design behaviours; "
                 "scanner-level: commands that choose implicit logging in the constructor / in main() / never x "
                 "--ecu-reset x --ping x properties (off / default / OEM class reading a DID), setup's and teardown's "
-                "own exchanges judged like main()'s. "
+                "own exchanges judged like main()'s; entry-points: the client's convenience calls (transmit_data "
+                "of several shapes with a fault at the n-th exchange, set_session incl. refused and the database "
+                "fall-back, leave_session, check_and_set_session, refresh_state, wait_for_ecu, ping, read_session, "
+                "read_dtc, clear_dtc, read_vin, every typed one-shot helper with a config parameter) x the request "
+                "config the caller hands in (none / empty / ANALYZE / another tag / both), interleaved with plain "
+                "calls tagged the other way, with implicit toggles, as concurrent lanes, aborted at every await. "
                 "distinct = distinct (history, abort point); non-trivial = anything but a single positive exchange")
     rep.assumptions = [
         "outcome classes of replies are coverage labels found by offering candidate bytes to the real parse_pdu; "
@@ -383,6 +567,12 @@ def run(tier: str, seed: int) -> Report:
         "documented switch, assigned in the constructor by `scan uds dump-seeds`), whenever it was assigned; in the "
         "scanner-level family gallia.command.uds.load_ecu is stubbed to hand out an ECU subclass that notes the "
         "calls of its public request() (and, for the OEM variant, reads DID 0xF190 in properties())",
+        "an entry-point call is made with ONE request config for all its exchanges: the exchanges that are the "
+        "operation itself (TransferData / RequestTransferExit of transmit_data, the DiagnosticSessionControl to the "
+        "requested level of set_session, the exchange of a one-shot helper) are 'requested' with the caller's tags; "
+        "auxiliary exchanges (reset and pings of leave_session, session read-backs, intermediate sessions of a stored "
+        "transition, check_and_set_session / refresh_state / wait_for_ecu) are 'requested' with whatever config their "
+        "request was made with - statement silent on whose config applies, counted as unspecified",
         "a call in flight that is cut by the cancellation of the RUN / a call that never reached the wire / a handler "
         "that was never closed: statement silent ('no completed exchange is missing') -> every outcome accepted, "
         "counted as unspecified; a call cut by a timeout of its own caller while the run goes on (asyncio.wait_for, "
@@ -481,7 +671,18 @@ def run(tier: str, seed: int) -> Report:
     # commands whose set-up / tear-down exchange something, with implicit logging chosen before / in / never in main()
     for jobs in scanner_level_files(thorough, good[rd], good[ds], pick(rd, "Pos")[1], pick(ds, "Pos")[1]):
         add_file(jobs, "scanner-level")
+    # convenience entry points of the client called with one request config for several exchanges
+    ep_files, ep_abort, ep_facts = entry_point_files(thorough, good[rd], pick(rd, "Pos")[1])
+    for jobs in ep_files:
+        add_file(jobs, "entry-points")
     probe = run_files([[{"hist": h}] for h in abort_hists])
+    probe_ep = run_files([[abort_job(h)] for h in ep_abort])
+    for h, p in zip(ep_abort, probe_ep):
+        for k in range(1, p["points"] + 1):
+            add_file([dict(abort_job(h), cancel_at=k)], "entry-points-abort-every-point")
+        for pos in range(len(h) + 1):
+            add_file([abort_job(h[:pos] + [{"op": "raise"}] + h[pos:])], "entry-points-abort-every-point")
+    probe = probe + probe_ep
     for h, p in zip(abort_hists, probe):
         for k in range(1, p["points"] + 1):
             add_file([{"hist": h, "cancel_at": k}], "abort-every-point")
@@ -594,6 +795,35 @@ def run(tier: str, seed: int) -> Report:
     for k in ("setup:off", "setup:on", "teardown:off", "teardown:on", "main:off", "main:on"):
         if not sl.get(k) and not rep.violations:
             raise Machinery(f"scanner-level family is vacuous: no exchange on the wire for {k} ({sl})")
+    # entry-point family: what was exercised, per (entry point, role of the exchange, tag the caller gave)
+    epc: dict[str, int] = {}
+    aux_passed: dict[str, list[int]] = {}
+    for t in traces:
+        if not t["origin"].startswith("entry-points"):
+            continue
+        for e, m in zip(t["exch"], t["meta"]):
+            if not m.get("ep") or e["nw"] == 0:
+                continue
+            k = f"{m['ep']}:{m['role']}:{'ANALYZE' if m['tag_of_caller'] else 'untagged'}"
+            epc[k] = epc.get(k, 0) + 1
+            if m["role"] == "auxiliary" and m["tag_of_caller"]:
+                # unspecified: whether an auxiliary exchange is made with the caller's config (recorded only)
+                a = aux_passed.setdefault(f"{m['ep']}:{m['cls']}", [0, 0])
+                a[0 if m["tag_reached_request"] else 1] += 1
+    rep.extra["entry_point_exchanges_by_role_and_caller_tag"] = dict(sorted(epc.items()))
+    rep.extra["entry_point_auxiliary_exchanges_of_tagged_calls__with_vs_without_the_callers_config"] = \
+        dict(sorted(aux_passed.items()))
+    rep.extra["entry_point_calls"] = sum(len(t.get("ep_calls", [])) for t in traces)
+    rep.extra["entry_point_family"] = ep_facts
+    unspecified["auxiliary_exchange_of_a_tagged_entry_point_call"] = sum(sum(v) for v in aux_passed.values())
+    for k in ("transmit_data:operation:ANALYZE", "transmit_data:operation:untagged", "set_session:operation:ANALYZE",
+              "set_session:operation:untagged", "set_session:auxiliary:ANALYZE", "leave_session:auxiliary:ANALYZE",
+              "read_dtc:operation:ANALYZE", "ping:operation:ANALYZE"):
+        if not epc.get(k) and not rep.violations:
+            raise Machinery(f"entry-point family is vacuous: no exchange on the wire for {k} ({epc})")
+    if ep_facts["typed_helpers_called"] < 20 and not rep.violations:
+        raise Machinery(f"entry-point family: reflection found only {ep_facts['typed_helpers_called']} typed helpers "
+                        f"with a config parameter (skipped: {ep_facts['typed_helpers_skipped']})")
     rep.extra["origins"] = {o: origin.count(o) for o in sorted(set(origin))}
     rep.extra["rows_read_back"] = sum(len(t["rows"]) for t in traces)
     rep.extra["warnings_could_not_log"] = sum(len(t["warns"]) for t in traces)
@@ -667,14 +897,35 @@ def run(tier: str, seed: int) -> Report:
                              "recv": 2})
         m["id"] = len(muts)
         muts.append(("row-for-setup-exchange-while-off", m))
+        offb_id = m["id"]
+    epb = None
+    for i, t in enumerate(traces):
+        if verdicts[i][0] != "ok" or t["origin"] != "entry-points" or not t["closed"] or len(t["rows"]) != len(t["exch"]):
+            continue
+        last = [j for j, (e, mm) in enumerate(zip(t["exch"], t["meta"]))
+                if mm.get("ep") == "transmit_data" and mm["role"] == "operation" and e["ana"] and e["impl"] == "on"
+                and e["req"][:1] == [0x37]]
+        if last:
+            epb = (t, last[0])
+            break
+    if epb is None and not rep.violations:
+        raise Machinery("no accepted entry-point run with a tagged, completed data transfer")
+    if epb is not None:
+        m = json.loads(json.dumps({k: epb[0][k] for k in TRACE_KEYS}))
+        m["rows"][epb[1]]["mode"] = "implicit"
+        m["id"] = len(muts)
+        muts.append(("exit-of-tagged-transfer-marked-implicit", m))
     mv = validate([m for _, m in muts])
+    if epb is not None and mv[muts[-1][1]["id"]][0] != "B2/log-mode":
+        raise Machinery("binding self-test: the concluding exchange of a tagged transfer marked implicit is not "
+                        f"reported as B2/log-mode but as {mv[muts[-1][1]['id']][0]}")
     acc = [n for (n, m) in muts if mv[m["id"]][0] == "ok"]
     if acc:
         raise Machinery(f"binding self-test: corrupted traces accepted: {acc}")
     rep.extra["binding_selftest"] = {n: mv[m["id"]][0] for n, m in muts}
-    if offb is not None and mv[muts[-1][1]["id"]][0] != "B3/recorded-while-implicit-off":
+    if offb is not None and mv[offb_id][0] != "B3/recorded-while-implicit-off":
         raise Machinery("binding self-test: a row for a set-up exchange made while implicit logging was off is not "
-                        f"reported as B3 but as {mv[muts[-1][1]['id']][0]}")
+                        f"reported as B3 but as {mv[offb_id][0]}")
     return rep
 
 
